@@ -288,6 +288,50 @@ class _Div(_Sub):
         return ts[0] * ts[1] ** -1
 
 
+@ident("scalar forms: c - a = c + (-a), a - c = a + (-c), c / a = c * a**-1, a / c = a * c**-1")
+class _ScalarForms(Identity):
+    """the reflected and scalar operator forms of the two identities above (c is a Python number: 0.5, exactly representable
+    together with its reciprocal)"""
+
+    def configs(self, tier):
+        return [{"a": list(x), "form": f} for x in SH[:4] for f in ("c-a", "a-c", "c/a", "a/c")]
+
+    def inputs(self, a):
+        return [Inp("a", a["a"], nonzero=True)]
+
+    def lhs(self, a, ts):
+        x, c = ts[0], 0.5
+        return {"c-a": lambda: c - x, "a-c": lambda: x - c, "c/a": lambda: c / x, "a/c": lambda: x / c}[a["form"]]()
+
+    def rhs(self, a, ts):
+        import synapgrad.functional as F
+        x, c = ts[0], 0.5
+        return {"c-a": lambda: c + F.neg(x), "a-c": lambda: x + (-c), "c/a": lambda: c * x ** -1, "a/c": lambda: x * 2.0}[a["form"]]()
+
+
+@ident("pool1d = windows + max / mean")
+class _Pool1d(Identity):
+    """max_pool1d / avg_pool1d (no padding) = the sliding windows of Tensor.unfold reduced over their last dim"""
+
+    def configs(self, tier):
+        out = []
+        for kind in ("max", "avg"):
+            for (L_, k, s) in ((3, 2, 1), (4, 2, 2)) + (((5, 3, 2), (4, 1, 3)) if tier != "quick" else ()):
+                out.append({"kind": kind, "L": L_, "k": k, "s": s, "N": 1, "C": 1 if kind == "max" else 2})
+        return out
+
+    def inputs(self, a):
+        return [Inp("x", (a["N"], a["C"], a["L"]))]
+
+    def lhs(self, a, ts):
+        f = NF().max_pool1d if a["kind"] == "max" else NF().avg_pool1d
+        return f(ts[0], a["k"], a["s"])
+
+    def rhs(self, a, ts):
+        w = ts[0].unfold(2, a["k"], a["s"])
+        return w.max(-1) if a["kind"] == "max" else w.mean(-1)
+
+
 @ident("mean = sum / count")
 class _Mean(Identity):
     def configs(self, tier):
